@@ -575,6 +575,6 @@ def run(ctx):
 
     warnings.simplefilter("ignore")
     scu, scp = strategies()
-    n = 1500 if ctx.quick else 6000
+    n = 1500 if ctx.quick else 15000
     ctx.hyp("scu", scu, n)
     ctx.hyp("scp", scp, n)
